@@ -14,7 +14,7 @@ import ast
 import re
 from fractions import Fraction
 
-from ..model import AnalysisError, calls_in, call_name, walk_fn
+from ..model import AnalysisError, calls_in, call_name
 from ..symex import Symex, Obj, Raised
 from ..terms import (T, sym, t_mul, t_add, t_pow, is_num, args_of, expand_products, product_key, multiset,
                      multiset_diff, show, subterms)
@@ -189,6 +189,9 @@ def _ix(v):
     return v
 
 
+_SYMPY_NUMBERS = {"S.One": 1, "S.Zero": 0, "S.NegativeOne": -1, "S.Half": Fraction(1, 2)}
+
+
 def norm(t):
     """The algebraic value of an importer result: Mul/Add/Pow/Expr/.sympy are interpreted, constructor calls become
     ``obj`` terms independent of keyword/positional spelling."""
@@ -230,6 +233,8 @@ def norm(t):
         return T("call", name, tuple(pos), tuple((k, norm(v)) for k, v in t.args[2]))
     if t.op == "attr" and t.args[1] == "sympy":
         return norm(t.args[0])
+    if t.op == "sym" and t.args[0] in _SYMPY_NUMBERS:
+        return _SYMPY_NUMBERS[t.args[0]]
     args = [norm(x) for x in t.args]
     if t.op == "mul":
         return t_mul(*args)
